@@ -72,7 +72,10 @@ const (
 	// with the histogram bucket bound values.
 	DefaultHistogramBucketTagPrecision = uint(6)
 
-	_emitMetricBatchOverhead    = 19
+	// _metricListHeaderGrowth is how much the header of the list of metrics
+	// can grow over that of an empty list (compact protocol: a one byte
+	// header becomes one byte plus a varint32 size beyond 14 elements).
+	_metricListHeaderGrowth     = 5
 	_minMetricBucketIDTagLength = 4
 	_timeResolution             = 100 * time.Millisecond
 )
@@ -246,7 +249,10 @@ func NewReporter(opts Options) (Reporter, error) {
 		proto = resourcePool.getProto()
 	)
 
-	if err := batch.Write(proto); err != nil {
+	// n.b. Measure the whole message that envelops the metrics: the message
+	//      header (with the largest sequence id), the call arguments and the
+	//      batch with its common tags and an empty list of metrics.
+	if err := writeEmitMetricBatchV2(proto, batch); err != nil {
 		return nil, errors.WithMessage(
 			err,
 			"failed to write to proto for size calculation",
@@ -257,7 +263,7 @@ func NewReporter(opts Options) (Reporter, error) {
 
 	var (
 		calc             = proto.Transport().(*customtransport.TCalcTransport)
-		numOverheadBytes = _emitMetricBatchOverhead + calc.GetCount()
+		numOverheadBytes = _metricListHeaderGrowth + calc.GetCount()
 		freeBytes        = opts.MaxPacketSizeBytes - numOverheadBytes
 	)
 	calc.ResetCount()
@@ -412,11 +418,9 @@ func (r *reporter) AllocateHistogram(
 				durationUpperBound: pair.UpperBoundDuration(),
 				metric:             &counter,
 			}
-			delta = len(r.bucketIDTagName) + len(r.bucketTagName) + len(hbucket.bucketID)
 		)
 
 		hbucket.metric.metric.Tags = mtags
-		hbucket.metric.size = r.calculateSize(hbucket.metric.metric)
 
 		if isDuration {
 			bname := r.stringInterner.Intern(
@@ -424,7 +428,7 @@ func (r *reporter) AllocateHistogram(
 					r.durationBucketString(pair.UpperBoundDuration()),
 			)
 			hbucket.bucket = bname
-			hbucket.metric.size += int32(delta + len(bname))
+			hbucket.metric.size = r.calculateBucketSize(hbucket)
 			cachedDurationBuckets = append(cachedDurationBuckets, hbucket)
 		} else {
 			bname := r.stringInterner.Intern(
@@ -432,7 +436,7 @@ func (r *reporter) AllocateHistogram(
 					r.valueBucketString(pair.UpperBoundValue()),
 			)
 			hbucket.bucket = bname
-			hbucket.metric.size += int32(delta + len(bname))
+			hbucket.metric.size = r.calculateBucketSize(hbucket)
 			cachedValueBuckets = append(cachedValueBuckets, hbucket)
 		}
 
@@ -508,6 +512,32 @@ func (r *reporter) calculateSize(m m3thrift.Metric) int32 {
 	r.calc.ResetCount()
 	r.calcLock.Unlock()
 	return size
+}
+
+// calculateBucketSize measures a histogram bucket metric the way process()
+// emits it: with the bucket id and bucket tags appended to its tags.
+func (r *reporter) calculateBucketSize(b cachedHistogramBucket) int32 {
+	m := b.metric.metric
+	tags := make([]m3thrift.MetricTag, 0, len(m.Tags)+2)
+	tags = append(tags, m.Tags...)
+	m.Tags = append(
+		tags,
+		m3thrift.MetricTag{Name: r.bucketIDTagName, Value: b.bucketID},
+		m3thrift.MetricTag{Name: r.bucketTagName, Value: b.bucket},
+	)
+	return r.calculateSize(m)
+}
+
+// writeEmitMetricBatchV2 writes the message the client sends for a batch.
+func writeEmitMetricBatchV2(proto thrift.TProtocol, batch m3thrift.MetricBatch) error {
+	if err := proto.WriteMessageBegin("emitMetricBatchV2", thrift.ONEWAY, math.MaxInt32); err != nil {
+		return err
+	}
+	args := m3thrift.M3EmitMetricBatchV2Args{Batch: batch}
+	if err := args.Write(proto); err != nil {
+		return err
+	}
+	return proto.WriteMessageEnd()
 }
 
 func (r *reporter) reportCopyMetric(
